@@ -426,6 +426,9 @@ class Exec:
             m1 = [ev.eval(x) for x in lc.decreases.expr]
             self.oblige('decreases', lc.decreases.text, cond, lex_less(m1, li['m0']), lc.decreases.tags + ['C03'], line,
                         site='loop%d.back%d' % (loop['ordinal'], k))
+        elif any(i_['op'] == 'Next' and not i_.get('isstring') for i_ in blk['instrs']):
+            # a range over a map: the iteration visits each entry at most once and ends (trusted model of the runtime)
+            self.vc.external_models.add('range over map (finite iteration, unspecified order)')
         else:
             self.oblige('decreases', 'missing decreases clause', cond, 'false', ['C03'], line, site='loop%d.back%d' % (loop['ordinal'], k))
 
@@ -1682,7 +1685,9 @@ class Exec:
         args = []
         for p, a in zip(cf.params, actuals):
             if isinstance(a, Loc):
-                raise Unsupported('address passed to ' + callee)
+                # the address of a field or element: the inlined body loads and stores through the location itself
+                args.append(a)
+                continue
             a = self.adapt(a, p['t'])
             args.append(V(a.term, a.sort, p['t']))
         rets = sub.run(args, self.st, self.reach)
